@@ -50,7 +50,13 @@ impl Node {
             index,
             hash,
             length,
-            parent: flat_tree::parent(index),
+            // A peer can send any index. The few indices with 62 or more trailing one
+            // bits can not be nodes of a real tree and overflow in `flat_tree::parent`.
+            parent: if index.trailing_ones() >= 62 {
+                index
+            } else {
+                flat_tree::parent(index)
+            },
             data: Some(Vec::with_capacity(0)),
             blank,
         }
